@@ -149,6 +149,13 @@ def run_once(ctx):
         if not ok:
             res.findings.append(Finding("boot:predefined-user-modes:" + label, "predefined users: " + label + " - not so",
                                         {"engine": "boot"}))
+    # (i) default user modes: each flag's effects on the welcome burst, the counters, the audiences
+    for label, ok in boot.default_mode_effects(binary, hooks):
+        res.evaluations += 1
+        res.distinct.add("defaultmodes:" + label.split(":")[0])
+        if not ok:
+            res.findings.append(Finding("boot:default-user-modes:" + label.split(":")[1].strip()[:40],
+                                        "default user modes: expected '" + label + "' - not so", {"engine": "boot"}))
     # (g) the two keep-alive settings each govern their own interval (the rest of the keep-alive behaviour is C17's)
     tp = boot.timing_probe(binary, hooks)
     res.extra["timing_probe"] = [t[1] for t in tp if t[0] == "ok"]
